@@ -151,5 +151,34 @@ static inline size_t vseq_find_any(const vseq *s) { return (size_t)-1; }
 static inline const vseq *vseq_c_str(const vseq *s) { return s; }
 static inline const vseq *vseq_data(const vseq *s) { return s; }
 
+
+/* ---- K9 (JSON): the input std::string seen as (bytes, length); at() is the checked access of
+ * [string.access]: throws std::out_of_range when pos >= size(); operator[] is unchecked.
+ * substr(pos, n) throws std::out_of_range when pos > size() and yields min(n, size() - pos) bytes. */
+typedef struct vjs { const char *data; size_t len; } vjs;
+static inline size_t vjs_size(const vjs *s) { return s->len; }
+static inline char vjs_at(const vjs *s, size_t i) { if (i >= s->len) { VERIF_THROW(K_out_of_range, "std::string::at: pos >= size()"); } return s->data[i]; }
+static inline char vjs_index(const vjs *s, size_t i) { VERIF_STD_PRE(i <= s->len, "std::string::operator[]: pos <= size()"); return i == s->len ? '\0' : s->data[i]; }
+/* str.substr(pos, n) == "literal" for literals of at most 5 characters (loop-free) */
+static inline bool vjs_substr_eq_(const vjs *s, size_t pos, size_t n, const char *lit, size_t litlen) {
+  VERIF_STD_PRE(litlen <= 5 && n <= 5, "model bound: literals of at most 5 characters");
+  if (pos > s->len) { VERIF_THROW(K_out_of_range, "std::string::substr: pos > size()"); }
+  size_t m = s->len - pos < n ? s->len - pos : n;
+  if (m != litlen) return false;
+  if (m > 0 && s->data[pos] != lit[0]) return false;
+  if (m > 1 && s->data[pos + 1] != lit[1]) return false;
+  if (m > 2 && s->data[pos + 2] != lit[2]) return false;
+  if (m > 3 && s->data[pos + 3] != lit[3]) return false;
+  if (m > 4 && s->data[pos + 4] != lit[4]) return false;
+  return true;
+}
+#define vjs_substr_eq(s, pos, n, lit) vjs_substr_eq_(s, pos, n, lit, sizeof(lit) - 1)
+/* A5: ::isspace in the "C" locale (argument is a plain char: for negative values the C standard
+ * leaves ::isspace undefined; glibc's table covers -128..255 and answers false) */
+static inline int verif_isspace(int c) { return c == ' ' || (c >= '\t' && c <= '\r'); }
+/* a JSON value: opaque (only its class is kept) */
+typedef int vjson;
+enum { VJSON_Null = 0, VJSON_Object, VJSON_Array, VJSON_String, VJSON_Floating, VJSON_Integral, VJSON_Boolean, VJSON_Number };
+
 #define VERIF_SWAP(a, b) do { __typeof__(a) verif_t = (a); (a) = (b); (b) = verif_t; } while (0)
 #endif
